@@ -150,7 +150,9 @@ func (g *Global) LLString() string {
 		fmt.Fprintf(buf, ", partition %s", quote(g.Partition))
 	}
 	if g.Comdat != nil {
-		if g.Comdat.Name == g.Name() {
+		// The comdat name is omitted when it is the name of the global; an
+		// unnamed global has no name to stand in for it.
+		if !g.IsUnnamed() && g.Comdat.Name == g.Name() {
 			buf.WriteString(", comdat")
 		} else {
 			fmt.Fprintf(buf, ", %s", g.Comdat)
